@@ -262,11 +262,14 @@ func runC12(r *simkit.Run, c Cfg) {
 	}
 	var cl *findclient.DHashClient
 	preload := tp.Chance(1, 2, "preload")
-	r.Logf("~cfg", "multihashes=%d byzantine=%v preload=%v", nmh, byzantine, preload)
+	// metadata-only clients do not resolve provider addresses (no provider
+	// cache): results carry the provider ID alone
+	mdOnly := tp.Chance(1, 4, "metadataOnly")
+	r.Logf("~cfg", "multihashes=%d byzantine=%v preload=%v metadataOnly=%v", nmh, byzantine, preload, mdOnly)
 	// the client preloads its provider cache over the network: build it on a
 	// task so that the scheduler can answer the request
 	r.Go("setup", func(t *simkit.Task) {
-		cl = must(findclient.NewDHashClient(findclient.WithDHStoreURL("http://dhstore.example.org"), findclient.WithPcachePreload(preload)))
+		cl = must(findclient.NewDHashClient(findclient.WithDHStoreURL("http://dhstore.example.org"), findclient.WithPcachePreload(preload), findclient.WithMetadataOnly(mdOnly)))
 	})
 	if out := r.Loop(simkit.LoopCfg{Custom: net.RequestAction, MaxSteps: 100}); out != "done" {
 		r.Violate("c12.setup", "client construction did not complete (%s)", out)
@@ -347,7 +350,9 @@ func runC12(r *simkit.Run, c Cfg) {
 				}
 				var want []model.ProviderResult
 				for _, e := range index[string(mh)] {
-					if e.tamper != dtNone || e.prov == unknownProv {
+					if e.tamper != dtNone || (e.prov == unknownProv && !mdOnly) {
+						// (a metadata-only client does not look providers up:
+						// it reports an entry of a provider nobody knows too)
 						continue
 					}
 					want = append(want, model.ProviderResult{ContextID: e.ctxID, Metadata: e.metadata, Provider: &peer.AddrInfo{ID: e.prov.ID}})
